@@ -16,6 +16,7 @@ from .vloop import VLoop
 
 SCHED_CFG = """SPECIFICATION Spec
 CONSTANTS
+  EngineS = "{engine}"
   MaxNow = {maxnow}
   WaitSteps = {waits}
   MaxDepth = {depth}
@@ -56,10 +57,10 @@ class SEdge:
 
 
 def model_check_sched(built: List[Built], workdir: str, *, maxnow=200, waits=(30,), depth=7, props=("C08", "C01"),
-                      workers=4, timeout=1700) -> Tuple[tla.TLCResult, List[SEdge]]:
+                      workers=4, timeout=1700, engine="async") -> Tuple[tla.TLCResult, List[SEdge]]:
     os.makedirs(workdir, exist_ok=True)
     tla.write_batch(os.path.join(workdir, "Batch.tla"), [b.defn for b in built])
-    cfg = SCHED_CFG.format(maxnow=maxnow, waits="{" + ", ".join(str(w) for w in waits) + "}", depth=depth,
+    cfg = SCHED_CFG.format(engine=engine, maxnow=maxnow, waits="{" + ", ".join(str(w) for w in waits) + "}", depth=depth,
                            props="{" + ", ".join(f'"{p}"' for p in props) + "}")
     edges: List[SEdge] = []
     res = tla.run_tlc("SCSched", cfg, workdir, workers=workers, timeout=timeout, json_sink=lambda o: edges.append(SEdge(o)))
@@ -174,6 +175,80 @@ def run_sched(b: Built, steps: List[dict]) -> List[Tuple[dict, list]]:
             pass
         asyncio.set_event_loop(None)
         loop.close()
+    return res
+
+
+def strip_slow(cfg: dict) -> dict:
+    """The same machine without its suspending (coroutine) actions - the sync engine cannot run them."""
+    import copy
+    c = copy.deepcopy(cfg)
+
+    def walk(n):
+        on = n.get("on")
+        if isinstance(on, dict):
+            for ev in list(on):
+                t = on[ev]
+                acts = t.get("actions") if isinstance(t, dict) else None
+                if isinstance(acts, list) and any(isinstance(a, str) and a.startswith("slow:") for a in acts):
+                    del on[ev]
+        for ch in (n.get("states") or {}).values():
+            walk(ch)
+    walk(c)
+    return c
+
+
+def run_sched_sync(b: Built, steps: List[dict]) -> List[Tuple[dict, list]]:
+    """Driver steps on a fresh traced SyncInterpreter whose timer threads run under virtual time
+    (harness/vthreads.py).  One driver step = one spec action of SCSched with EngineS = "sync"."""
+    from . import vthreads
+    vctl = vthreads.Controller()
+    res = []
+    with vthreads.patched(vctl):
+        b.ctl.reset()
+        rt.CURRENT["ctl"] = b.ctl
+        rt.CURRENT["vctl"] = vctl
+        interp = rt.attach(rt.TracedSync(b.machine, b.ctl), b.ctl)
+        b.ctl.fuel = b.defn["fuel"]
+        try:
+            for st in steps:
+                b.ctl.gv = dict(st.get("gv") or {})
+                b.ctl.log = []
+                b.ctl.events = 0
+                op = st["op"]
+                try:
+                    if op == "start":
+                        interp.start()
+                    elif op == "send":
+                        interp.send(st["ev"])
+                    elif op == "wait":
+                        vctl.advance_to(vctl.now + st["dt"])
+                    elif op == "advance":
+                        nd = vctl.next_deadline()
+                        if nd is not None:
+                            vctl.advance_to(nd)
+                    elif op == "stop":
+                        interp.stop()
+                    else:
+                        b.ctl.emit("driver_error", "op not available on the sync engine: " + op)
+                except rt.Diverged:
+                    b.ctl.emit("error", "Diverged")
+                except Exception as ex:  # noqa: BLE001 - surfaced as a mismatch
+                    b.ctl.emit("driver_error", type(ex).__name__)
+                vctl.settle()
+                p = rt.project(interp, b.ctx_keys)
+                live = sorted([[w["info"][0], w["info"][1], round(w["due"])] for w in vctl.live() if w["info"]])
+                obs = {"config": p["config"], "hist": {k: v for k, v in p["hist"].items() if v}, "status": p["status"], "ctx": p["ctx"],
+                       "output": "NONE" if interp.output is None else str(interp.output),
+                       "queue": [getattr(e, "type", "?") for e in list(interp._event_queue)], "now": round(vctl.now), "busy": 0,
+                       "timers": live, "svcs": []}
+                res.append((obs, b.ctl.take()))
+            try:
+                interp.stop()
+            except Exception:  # noqa: BLE001
+                pass
+        finally:
+            vctl.drain()
+            rt.CURRENT["vctl"] = None
     return res
 
 
